@@ -405,7 +405,8 @@ class BundleFlattener(ElabPass):
             # Note at this point in elaboration, these Anon-Bundles are the sole remaining place `PortRef`s can hide.
             # They are also the last place where `BundleRef`s will be resolved,
             # although the others just have been, earlier in this elaborator pass.
-            if isinstance(attr, (BundleRef, PortRef)):
+            # (A `PortRef` may resolve to the `BundleRef` its port is tied to, which needs resolving in turn.)
+            while isinstance(attr, (BundleRef, PortRef)):
                 attr = self.resolve_bundleref(attr)
 
             if isinstance(attr, NoConn):  # Invalid
